@@ -81,7 +81,13 @@ class Pipe(object):
         if pol == "writes":
             return self.chunks.popleft()
         if pol == "byte":
+            # one byte at a time through the length prefix, the correlation id and a little beyond, then the
+            # rest of that write in one piece (a whole 4 KiB reply byte by byte would only burn events)
             n = 1
+            self._single = getattr(self, "_single", 0) + 1
+            if self._single > 14:
+                n = len(first)
+                self._single = 0
         elif pol == "prefix":
             # cut inside the 4-byte length prefix first, then the rest of what is pending
             n = self.rng.randint(1, 3) if self.rng.random() < 0.5 else len(first)
@@ -96,6 +102,7 @@ class Pipe(object):
                     data = data[:n]
                 return data
         if n >= len(first):
+            self._single = 0
             return self.chunks.popleft()
         self.chunks[0] = first[n:]
         return first[:n]
